@@ -33,6 +33,7 @@ MC_DAMAGE = dict(coverage=False, name="MC_Damage", module="MC_Wal.tla", cfg="MC_
                  expect_actions=WAL_STEPS + ["Restart", "Damage"], timeout=7000)
 MC_NOOP = dict(coverage=False, name="MC_Noop", module="MC_Wal.tla", cfg="MC_Noop_quick.cfg", expect_actions=WAL_STEPS + ["Restart"], timeout=3000)
 MC_READER = dict(name="MC_Reader", module="Reader.tla", cfg="MC_Reader.cfg", expect_actions=["ReadFrame", "Header", "IntoWriter", "GcOpenOrCreate"])
+MC_CODEC = dict(name="MC_Codec", module="MC_Codec.tla", cfg="MC_Codec.cfg", coverage=False)
 MC_FRAMES = dict(name="MC_Frames", module="MC_Frames.tla", cfg="MC_Frames_quick.cfg", cfg_thorough="MC_Frames_tiny.cfg")
 MC_FRAMES_REAL = dict(name="MC_Frames_real", module="MC_Frames.tla", cfg="MC_Frames_real.cfg")
 
@@ -212,8 +213,9 @@ RECIPES = {
     "C10": dict(
         level="exploration",
         monitors={"C10"},
-        mc=[MC_READER],
-        runs=[dict(cmd="damage", gen="small:16,batch:6,gc-heavy:6,big:3,names:2", policy="always_flush",
+        mc=[MC_READER, MC_CODEC],
+        runs=[dict(cmd="codec", opts={"cases": "300"}, opts_thorough={"cases": "3000"}),
+              dict(cmd="damage", gen="small:16,batch:6,gc-heavy:6,big:3,names:2", policy="always_flush",
                    opts={"classes": "payload,crc,hdr,noise,struct,hostile", "noise": "200", "struct": "200"},
                    opts_thorough={"classes": "payload,crc,hdr,noise,struct,hostile", "noise": "2000", "struct": "2000", "thorough": True},
                    thorough_factor=8)],
@@ -254,8 +256,10 @@ RECIPES = {
     "C07": dict(
         level="model_checking",
         monitors={"C07"},
-        mc=[MC_FRAMES, MC_FRAMES_REAL],
+        mc=[MC_FRAMES, MC_FRAMES_REAL, MC_CODEC],
         runs=[dict(cmd="frames", opts={"cases": "6000"}, opts_thorough={"sweep": True}),
+              # the entry codec: encodings of generated entries must decode to what was encoded (Codec.tla)
+              dict(cmd="codec", opts={"cases": "300"}, opts_thorough={"cases": "3000"}),
               dict(cmd="run", gen="aim-block:60,boundary:40,big:10", policy="always_flush", monitors={"C01", "C05", "C15"})],
         rule="record layer in memory: the real RecordWriter over a logging block writer and the real RecordReader, start "
              "cursors at every boundary class (thorough: all 32768 in-block offsets) x 1-3 entry lengths chosen relative to "
